@@ -91,8 +91,8 @@ var _ rpc.Resources
 // unsent are reset to unsent; the second pass runs only if the simulated removal leaves the root
 // without parents, or sent without sent parents.
 //@ func (*wsConn).tryDelete
-//@   requires predConnOK(c) && s != nil && s.c == c
-//@   assumes predSubsOK(c) && predRefsOK() && (forall x *Subscription :: x.resourceSub != nil ==> x.resourceSub.e != nil && x.resourceSub.e.cache != nil) &&
+//@   requires s != nil
+//@   assumes predConnOK(c) && s.c == c && predSubsOK(c) && predRefsOK() && (forall x *Subscription :: x.resourceSub != nil ==> x.resourceSub.e != nil && x.resourceSub.e.cache != nil) &&
 //@       (forall x *Subscription :: x.state == stateDisposed ==> x.resourceSub == nil)
 //@   ensures[C02,C08] old(s.direct) > 0 ==> callcount("traverse") == old(callcount("traverse")) && callcount("Dispose") == old(callcount("Dispose")) &&
 //@       callcount("Unsend") == old(callcount("Unsend")) && (forall x *Subscription :: x.state == old(x.state) && x.indirectsent == old(x.indirectsent))
@@ -102,8 +102,12 @@ var _ rpc.Resources
 //@   assert[C02] return#2: rr.indirect > 0 && !(sent && rr.indirectsent == 0)
 //@   assert[C02] ref.sub.Dispose#1: ref.state == gcStateDelete
 //@   assert[C02] ref.sub.Unsend#1: ref.state == gcStateUnsend
+//@   ensures[C08] forall x *Subscription :: x.direct == old(x.direct)
+//@   assigns Subscription.direct, Subscription.indirect, Subscription.indirectsent, Subscription.state, Subscription.readyCallbacks,
+//@       Subscription.eventQueue, Subscription.throttle, Subscription.resourceSub, Subscription.refs, elems(c.subs), pkgstate(rescache), cachecontainers(), alloc()
 //@   safety[C15]
 //@   loop 1 let R = refs
+//@   loop 1 invariant forall x *Subscription :: x.direct == old(x.direct)
 //@   loop 1 assume forall k string :: has(R, k) ==> R[k] != nil && R[k].sub != nil && R[k].sub.c == c
 //@   loop 1 assume predConnOK(c) && predRefsOK() && (forall x *Subscription :: x.resourceSub != nil ==> x.resourceSub.e != nil && x.resourceSub.e.cache != nil) &&
 //@       (forall x *Subscription :: x.state == stateDisposed ==> x.resourceSub == nil)
@@ -150,6 +154,7 @@ var _ rpc.Resources
 //@   callback cb requires arg0 != nil
 //@   ensures[C02] old(s.direct) > 0 ==> invoked() == old(invoked())
 //@   assert[C02] cb#1: arg0 == s && arg1 == state && s.direct <= 0
+//@   assigns nothing
 //@   safety[C15]
 //@   loop 1 let M = s.refs
 //@   loop 1 assume forall a string :: has(M, a) ==> M[a] != nil && M[a].sub != nil
@@ -616,6 +621,7 @@ var _ rpc.Resources
 //@   ensures[C02] forall a string :: has(s.refs, a) && s.refs[a].sub != s && old(s.refs[a].sub.state) == stateSent && old(s.refs[a].sub.indirectsent) > 0 ==>
 //@       s.refs[a].sub.indirectsent == old(s.refs[a].sub.indirectsent) - 1
 //@   ensures[C02] forall x *Subscription :: x != s ==> x.state == old(x.state)
+//@   assigns Subscription.state, Subscription.indirectsent
 //@   safety[C15]
 //@   loop 1 invariant s.state == stateReady && s.indirectsent == 0 && s.refs == old(s.refs)
 //@   loop 1 invariant forall x *Subscription :: x != s ==> x.state == old(x.state)
@@ -716,6 +722,8 @@ var _ rpc.Resources
 //@   ensures[C11] forall m map[string]*Subscription, r string :: has(m, r) == old(has(m, r)) && m[r] == old(m[r])
 //@   ensures[C11] forall e *rescache.EventSubscription :: e.queue == old(e.queue)
 //@   ensures[C11] callcount("ResourceSubscription.Unsubscribe") == old(callcount("ResourceSubscription.Unsubscribe"))
+//@   assigns Subscription.direct, Subscription.indirect, Subscription.indirectsent, Subscription.state, Subscription.readyCallbacks,
+//@       Subscription.eventQueue, Subscription.throttle, Subscription.resourceSub, Subscription.refs, elems(s.c.(*wsConn).subs), pkgstate(rescache), cachecontainers()
 //@   safety[C15]
 //@   loop 1 invariant s.refs == old(s.refs) && (forall r string :: has(s.refs, r) ==> s.refs[r] != nil && s.refs[r].sub != nil)
 //@   loop 1 invariant forall x *Subscription :: x.state == old(x.state) && x.resourceSub == old(x.resourceSub) && x.direct == old(x.direct) &&
@@ -740,6 +748,9 @@ var _ rpc.Resources
 //@   ensures[C11] forall x *Subscription :: x != s ==> x.state == old(x.state) && x.resourceSub == old(x.resourceSub)
 //@   ensures[C11] forall k *wsConn :: k.disposing == old(k.disposing) && k.subs == old(k.subs)
 //@   ensures[C11] forall m map[string]*Subscription, r string :: has(m, r) == old(has(m, r)) && m[r] == old(m[r])
+//@   ensures[C08,C11] forall x *Subscription :: x.direct == old(x.direct)
+//@   assigns Subscription.direct, Subscription.indirect, Subscription.indirectsent, Subscription.state, Subscription.readyCallbacks,
+//@       Subscription.eventQueue, Subscription.throttle, Subscription.resourceSub, Subscription.refs, elems(s.c.(*wsConn).subs), pkgstate(rescache), cachecontainers()
 //@   safety[C15]
 
 // dispose: idempotent; the connection is marked as disposing, leaves the token-reset fan-out,
